@@ -4,6 +4,8 @@
 // written from the FDL description of LAS maintenance, not from the bitvec code.
 
 use super::*;
+#[allow(unused_imports)]
+use crate::verif_support::*;
 
 pub(crate) const ADDR_MASK: u128 = (1u128 << 126) - 1; // addresses 0..=125
 
@@ -231,10 +233,10 @@ fn c02_model_set_next() {
     let a: u8 = kani::any();
     kani::assume(a <= 125 && a != ts);
     m.set_next(a);
-    assert!(m.ns == a, "C12/reply-evaluation: the station entered by set_next_station is the successor afterwards");
-    assert!(m.state == before.state, "C02/model: set_next_station does not touch the LAS state");
-    assert!((m.ns, m.ps) == Model::neighbours(m.las, ts) && m.las & !ADDR_MASK == 0, "C02/model: ring invariant preserved");
-    assert!(m.las == (before.las & !jumped_over(ts, a)) | (1 << a) | (1 << ts), "C02/pass-algebra: everything strictly between TS and the new successor leaves the LAS, both ends are in it");
+    vassert!(m.ns == a, "C12/reply-evaluation: the station entered by set_next_station is the successor afterwards");
+    vassert!(m.state == before.state, "C02/model: set_next_station does not touch the LAS state");
+    vassert!((m.ns, m.ps) == Model::neighbours(m.las, ts) && m.las & !ADDR_MASK == 0, "C02/model: ring invariant preserved");
+    vassert!(m.las == (before.las & !jumped_over(ts, a)) | (1 << a) | (1 << ts), "C02/pass-algebra: everything strictly between TS and the new successor leaves the LAS, both ends are in it");
     kani::cover!(a < ts, "cover: successor below TS");
 }
 
@@ -248,10 +250,10 @@ fn c02_model_remove() {
     let a: u8 = kani::any();
     kani::assume(a <= 125 && a != ts);
     m.remove(a);
-    assert!(m.ns != a, "C11/remove-silent: a removed station is not the successor afterwards");
-    assert!(m.las == before.las & !(1 << a), "C11/remove-silent: exactly the removed station leaves the LAS");
-    assert!(m.state == before.state, "C02/model: remove_station does not touch the LAS state");
-    assert!((m.ns, m.ps) == Model::neighbours(m.las, ts), "C02/model: ring invariant preserved");
+    vassert!(m.ns != a, "C11/remove-silent: a removed station is not the successor afterwards");
+    vassert!(m.las == before.las & !(1 << a), "C11/remove-silent: exactly the removed station leaves the LAS");
+    vassert!(m.state == before.state, "C02/model: remove_station does not touch the LAS state");
+    vassert!((m.ns, m.ps) == Model::neighbours(m.las, ts), "C02/model: ring invariant preserved");
     kani::cover!(m.ns == ts, "cover: alone after removal");
 }
 
@@ -267,18 +269,18 @@ fn c02_model_witness() {
     let da: u8 = kani::any();
     m.witness(sa, da);
     if sa > 125 || da > 125 {
-        assert!(m == before, "C02/model: a pass with an invalid address is ignored");
+        vassert!(m == before, "C02/model: a pass with an invalid address is ignored");
         return;
     }
-    assert!((m.ns, m.ps) == Model::neighbours(m.las, ts) && m.las & !ADDR_MASK == 0, "C02/model: ring invariant preserved");
+    vassert!((m.ns, m.ps) == Model::neighbours(m.las, ts) && m.las & !ADDR_MASK == 0, "C02/model: ring invariant preserved");
     if before.state == MLas::Valid {
-        assert!(m.las == (before.las & !jumped_over(sa, da)) | (1 << sa), "C02/pass-algebra: a witnessed pass a->b removes exactly the addresses strictly between a and b and adds a");
-        assert!(m.state == MLas::Valid, "C02/stability: a valid LAS stays valid");
+        vassert!(m.las == (before.las & !jumped_over(sa, da)) | (1 << sa), "C02/pass-algebra: a witnessed pass a->b removes exactly the addresses strictly between a and b and adds a");
+        vassert!(m.state == MLas::Valid, "C02/stability: a valid LAS stays valid");
         if sa == ts && da == before.ns {
-            assert!(m.ns == before.ns && m.ps == before.ps, "C02/stability: the own pass to the successor leaves successor and predecessor unchanged");
+            vassert!(m.ns == before.ns && m.ps == before.ps, "C02/stability: the own pass to the successor leaves successor and predecessor unchanged");
         }
         if before.las >> sa & 1 == 1 && before.las >> da & 1 == 1 && before.las & jumped_over(sa, da) == 0 {
-            assert!(m.las == before.las && m.ns == before.ns && m.ps == before.ps, "C02/stability: an in-order pass between neighbours of the LAS changes nothing");
+            vassert!(m.las == before.las && m.ns == before.ns && m.ps == before.ps, "C02/stability: an in-order pass between neighbours of the LAS changes nothing");
             kani::cover!(true, "cover: in-order pass in a valid ring");
         }
     }
@@ -323,10 +325,10 @@ fn three_rotations<const K: usize>() {
         }
         k += 1;
     }
-    assert!(m.state == MLas::Valid, "C02/convergence: after three rotations the ring view is valid");
-    assert!(m.las & !(1 << ts) == ring, "C02/convergence: the LAS equals the set of stations in the ring");
+    vassert!(m.state == MLas::Valid, "C02/convergence: after three rotations the ring view is valid");
+    vassert!(m.las & !(1 << ts) == ring, "C02/convergence: the LAS equals the set of stations in the ring");
     let (ns, ps) = Model::neighbours(ring, ts);
-    assert!(m.ns == ns && m.ps == ps, "C02/convergence: successor and predecessor are the cyclic neighbours of TS in the ring");
+    vassert!(m.ns == ns && m.ps == ps, "C02/convergence: successor and predecessor are the cyclic neighbours of TS in the ring");
     kani::cover!(n == K, "cover: largest ring");
     kani::cover!(ts > s[0] && ts < s[1], "cover: listener between two members");
 }
@@ -404,8 +406,8 @@ fn c02_l1_control_flow() {
             m.claim();
         }
     }
-    assert!(same(&r, &m), "C02/l1: witness_token_pass / set_next_station / remove_station / claim_token agree with the reference model (leaves by model)");
-    assert!(r.ready_for_ring() == (m.state == MLas::Valid) && r.next_station() == m.ns && r.previous_station() == m.ps && r.this_station() == ts, "C02/l1: the observers report the model's values");
+    vassert!(same(&r, &m), "C02/l1: witness_token_pass / set_next_station / remove_station / claim_token agree with the reference model (leaves by model)");
+    vassert!(r.ready_for_ring() == (m.state == MLas::Valid) && r.next_station() == m.ns && r.previous_station() == m.ps && r.this_station() == ts, "C02/l1: the observers report the model's values");
     kani::cover!(m.state != m0.state, "cover: LAS state changes");
 }
 
@@ -445,6 +447,6 @@ fn c02_l1_update_las() {
     }
     r.active_stations.set(usize::from(sa), true);
     let want = (las & !jumped_over(sa, da)) | (1 << sa);
-    assert!(las_of(&r) == want, "C02/l1: the bitvec range fill of update_las_from_token_pass equals the model's mask arithmetic");
+    vassert!(las_of(&r) == want, "C02/l1: the bitvec range fill of update_las_from_token_pass equals the model's mask arithmetic");
     kani::cover!(da <= sa, "cover: wrap-around pass");
 }
